@@ -117,6 +117,16 @@ def call(ex, node, name, st):
             return I(len(v.items))
         if isinstance(v, tuple) and v and v[0] == "range":
             return I(S.rlen(v[1], v[2], v[3]))
+        if isinstance(v, tuple) and v and v[0] == "set":
+            # number of distinct values: partial axiomatisation (0 iff empty, 1 iff all equal, <= len)
+            t = v[1]
+            n = ex.fresh_int("ndistinct")
+            j = z3.Int("j!sd")
+            alleq = z3.ForAll([j], z3.Implies(z3.And(0 <= j, j < S.f_len(t)), S.f_at(t, j) == S.f_at(t, 0)),
+                              patterns=[S.f_at(t, j)])
+            st.pc.append(z3.And(n >= 0, n <= S.f_len(t), (n == 0) == (S.f_len(t) == 0),
+                                (n == 1) == z3.And(S.f_len(t) >= 1, alleq)))
+            return I(n)
         raise E.Unsupported(f"len of {v!r} line {node.lineno}")
     if name in ("min", "max"):
         if nargs == 1:
@@ -194,6 +204,11 @@ def call(ex, node, name, st):
         if isinstance(v, TupV):
             return TupV(v.items, name)
         raise E.Unsupported(f"{name}() of {v!r}")
+    if name == "set":
+        v = A(0)
+        if isinstance(v, (SeqV, TupV)):
+            return ("set", ex.to_seq(v))
+        raise E.Unsupported("set() of this value")
     if name == "dict":
         if nargs == 0 and not node.keywords:
             return ("emptydict",)
@@ -201,6 +216,14 @@ def call(ex, node, name, st):
     if name == "sum":
         a0 = node.args[0]
         v = ex.comprehension(a0, st, "tuple") if isinstance(a0, ast.GeneratorExp) else A(0)
+        if nargs == 2:
+            start = A(1)
+            if isinstance(start, TupV) and isinstance(v, TupV) and all(isinstance(x, TupV) for x in v.items):
+                items = list(start.items)
+                for x in v.items:
+                    items.extend(x.items)
+                return TupV(items, "tuple")
+            raise E.Unsupported("sum(..., start) form")
         if isinstance(v, SeqV):
             return I(S.f_prefix(v.t, S.f_len(v.t)))
         if isinstance(v, TupV):
@@ -246,6 +269,38 @@ def call(ex, node, name, st):
         if isinstance(v, (TupV, SeqV)):
             return BoolV(z3.BoolVal(False))
         raise E.Unsupported(f"{name} of {v!r}")
+    if name == "map":
+        fn = ex.dotted(node.args[0])
+        seqs = [A(i) for i in range(1, nargs)]
+        if not all(isinstance(x, TupV) for x in seqs):
+            raise E.Unsupported("map over a symbolic sequence")
+        n = min(len(x.items) for x in seqs)
+        out = []
+        for i in range(n):
+            out.append(apply_named(ex, fn, [x.items[i] for x in seqs], st, node))
+        return TupV(out, "tuple")
+    if name in ("all", "any"):
+        a0 = node.args[0]
+        v = ex.comprehension(a0, st, "tuple") if isinstance(a0, (ast.GeneratorExp, ast.ListComp)) else A(0)
+        if isinstance(v, TupV):
+            ts = [ex.truth(x) for x in v.items]
+            if name == "all":
+                return BoolV(z3.And(*ts) if ts else z3.BoolVal(True))
+            return BoolV(z3.Or(*ts) if ts else z3.BoolVal(False))
+        if isinstance(v, SeqV):
+            j = z3.Int("j!aa")
+            body = S.f_at(v.t, j) != 0
+            q = z3.ForAll([j], z3.Implies(z3.And(0 <= j, j < S.f_len(v.t)), body), patterns=[S.f_at(v.t, j)])
+            if name == "all":
+                return BoolV(q)
+            q2 = z3.ForAll([j], z3.Implies(z3.And(0 <= j, j < S.f_len(v.t)), z3.Not(body)), patterns=[S.f_at(v.t, j)])
+            return BoolV(z3.Not(q2))
+        raise E.Unsupported(f"{name} of {v!r}")
+    if name in ("is_integer",):
+        v = A(0)
+        if isinstance(v, (Opt, BoolV)):
+            return BoolV(z3.Not(S._b(v.n)) if isinstance(v, Opt) else z3.BoolVal(True))
+        return BoolV(z3.BoolVal(False))
     if name == "divmod":
         x, y = AI(0), AI(1)
         ex.oblige(st, "safe", "div-zero", y != 0, node.lineno)
@@ -291,6 +346,57 @@ def call(ex, node, name, st):
     raise E.Unsupported(f"call to unknown function {name!r} at line {node.lineno}")
 
 
+def apply_named(ex, fn, args, st, node):
+    """apply a builtin named `fn` to already-evaluated values (used by map)."""
+    if fn == "int":
+        v = args[0]
+        if isinstance(v, RealV):
+            return I(z3.If(v.t >= 0, z3.ToInt(v.t), -z3.ToInt(-v.t)))
+        return I(S.as_int(ex.need_int(v, st, node)))
+    if fn == "is_integer":
+        v = args[0]
+        if isinstance(v, Opt):
+            return BoolV(z3.Not(S._b(v.n)))
+        return BoolV(z3.BoolVal(isinstance(v, BoolV)))
+    if fn == "tuple":
+        v = args[0]
+        if isinstance(v, SeqV):
+            return SeqV(v.t, "tuple")
+        if isinstance(v, TupV):
+            return TupV(v.items, "tuple")
+    if fn == "sum":
+        v = args[0]
+        if isinstance(v, SeqV):
+            return I(S.f_prefix(v.t, S.f_len(v.t)))
+        if isinstance(v, TupV):
+            tot = z3.IntVal(0)
+            for x in v.items:
+                tot = tot + S.as_int(ex.need_int(x, st, node))
+            return I(tot)
+    if fn == "len":
+        v = args[0]
+        if isinstance(v, SeqV):
+            return I(S.f_len(v.t))
+        if isinstance(v, TupV):
+            return I(len(v.items))
+    if fn in ("max", "min"):
+        v = args[0]
+        if isinstance(v, SeqV):
+            return seq_extreme(ex, st, v, fn, node)
+    raise E.Unsupported(f"map/apply of {fn!r} line {node.lineno}")
+
+
+def seq_extreme(ex, st, v, name, node):
+    ex.oblige(st, "safe", "nonempty", S.f_len(v.t) > 0, node.lineno)
+    m = ex.fresh_int(name)
+    w = ex.fresh_int(name + "_at")
+    j = z3.Int("j!mm")
+    cmp = (S.f_at(v.t, j) <= m) if name == "max" else (S.f_at(v.t, j) >= m)
+    st.pc.append(z3.And(0 <= w, w < S.f_len(v.t), S.f_at(v.t, w) == m))
+    st.pc.append(z3.ForAll([j], z3.Implies(z3.And(0 <= j, j < S.f_len(v.t)), cmp), patterns=[S.f_at(v.t, j)]))
+    return I(m)
+
+
 def bisect(ex, st, t, x, right, line):
     """bisect on a non-decreasing sequence: the sortedness precondition is a
     proof obligation; the result is characterised by its two neighbours and
@@ -322,6 +428,12 @@ def method(ex, base, attr, args, st, node):
             pass
         lo, hi, stp = S.idx3(base, n)
         return TupV([I(lo), I(hi), I(stp)])
+    if isinstance(base, tuple) and base and base[0] == "set" and attr == "pop":
+        t = base[1]
+        ex.oblige(st, "safe", "nonempty", S.f_len(t) > 0, node.lineno, note="set.pop() of an empty set raises KeyError")
+        w = ex.fresh_int("popidx")
+        st.pc.append(z3.And(0 <= w, w < S.f_len(t)))
+        return I(S.f_at(t, w))
     if isinstance(base, MapV):
         if attr == "items":
             return ("items", base)
